@@ -711,3 +711,42 @@ def gen_C15(rng, count, tier):
             evs.append("peerclose")
         evs.append("turn")
         yield ("slot", " ".join(regs + evs))
+
+
+# ------------------------------------------------------------------------------------ C17
+
+def gen_C17(rng, count, tier):
+    names = [b"X-Auth-Token", b"x-auth-token", b"X-My-Token", b"Authorization", b"X-Auth-Toke"]
+    for i in range(count):
+        toks = []
+        if rng.random() < 0.6:
+            toks.append("umask:" + pick(rng, ["000", "022", "027", "077", "002"]))
+        if rng.random() < 0.3:
+            toks.append("pre:" + pick(rng, ["666", "644", "777", "600", "400"]))
+        toks.append("create")
+        cur = b"X-Auth-Token"
+        alive = True
+        for _ in range(rng.randrange(0, 8)):
+            k = rng.randrange(10)
+            if k < 2:
+                keys = [pick(rng, [b"port", b"name", b"token", b"a"]) for _ in range(rng.randrange(0, 3))]
+                toks.append("data:" + (",".join(hx(x) for x in dict.fromkeys(keys)) if keys else "-"))
+            elif k < 3:
+                cur = pick(rng, names)
+                toks.append("hdrname:" + hx(cur))
+            elif k < 8:
+                if rng.random() < 0.1:
+                    toks.append("req:none")
+                else:
+                    n = cur if rng.random() < 0.6 else pick(rng, names + [cur.upper()])
+                    v = pick(rng, ["exact", "exact", "exact", "upper", "droplast", "braceless", "nul", "bom", "previous", "o_" + hx(b"guess"), "o_-", "o_" + hx(b"{}")])
+                    toks.append("req:%s:%s" % (hx(n), v))
+            elif k < 9:
+                toks.append("destroy")
+                toks.append("create")
+                cur = b"X-Auth-Token"
+            else:
+                toks.append("umask:" + pick(rng, ["000", "022", "077"]))
+        if rng.random() < 0.7:
+            toks.append("destroy")
+        yield ("lauth", " ".join(toks))
